@@ -187,5 +187,34 @@ def setUpnpOk (ty : PyType) (needTz : Bool) (d : DeclVals F) (conv : Except Err 
   | .ok v => setOk fo ty needTz d v r before after
   | .error _ => r != .upnpValueError && (after == before || after == .none)
 
+/-! ### the judges as the driver applies them (strict and non-strict factories) -/
+
+/-- a declaration whose texts all denote values must yield a state variable -/
+def declOk (r : Except Err Unit) : Bool :=
+  match r with
+  | .ok _ => true
+  | .error _ => false
+
+/-- a spelling must be read as its value, and no conversion may raise anything but ValueError -/
+def spellJ (ty : PyType) (sp : Spelling) (v : Val F) (s : Str) (got : Except Err (Val F)) : Bool :=
+  spellOk fo ty sp v s got && inOk got
+
+/-- `validate_value`: exact acceptance is demanded in strict mode only -/
+def validateJ (strict : Bool) (ty : PyType) (needTz : Bool) (d : DeclVals F) (v : Val F) (r : SetRes) : Bool :=
+  !strict || validateOk fo ty needTz d v r
+
+/-- `sv.value = v`: strict — `setOk`; non-strict — a rejected value is not stored -/
+def setJ (strict : Bool) (ty : PyType) (needTz : Bool) (d : DeclVals F) (v : Val F) (r : SetRes)
+    (before after : Val F) : Bool :=
+  if strict then setOk fo ty needTz d v r before after else setKeeps v r before after
+
+/-- `sv.upnp_value = s`: strict — `setUpnpOk`; non-strict — a rejected / unconvertible value is not stored -/
+def setUpnpJ (strict : Bool) (ty : PyType) (needTz : Bool) (d : DeclVals F) (conv : Except Err (Val F)) (r : SetRes)
+    (before after : Val F) : Bool :=
+  if strict then setUpnpOk fo ty needTz d conv r before after
+  else match conv with
+    | .ok v => setKeeps v r before after
+    | .error _ => after == before || after == .none
+
 end
 end Upnp.C08
